@@ -247,6 +247,13 @@ impl MessageType for Request {
 
             match req.parse_with_uninit_headers(src, &mut parsed)? {
                 httparse::Status::Complete(len) => {
+                    // the same limit as for a head that arrives in pieces (below), so that
+                    // acceptance does not depend on how the bytes were segmented
+                    if len > MAX_BUFFER_SIZE {
+                        trace!("request head larger than MAX_BUFFER_SIZE, closing");
+                        return Err(ParseError::TooLarge);
+                    }
+
                     let method = Method::from_bytes(req.method.unwrap().as_bytes())
                         .map_err(|_| ParseError::Method)?;
                     let uri = Uri::try_from(req.path.unwrap())?;
